@@ -544,6 +544,9 @@ def ite(c, a, b):
         fa, fb = float(a), float(b)
         if float_bits(fa) == float_bits(fb):
             return a
+    if ctx().profile == "real" and any(isinstance(v, (float, np.floating)) and (v != v or v in (math.inf, -math.inf)) for v in (a, b)):
+        # NaN / inf constants have no term in profile 'real': fork on the condition instead of merging
+        return a if bool(c) else b
     fa, fb = lift_float(a), lift_float(b)
     if isinstance(fa, _Inf) or isinstance(fb, _Inf):
         raise RealisationError("ite over an infinite constant in profile 'real'")
